@@ -292,12 +292,15 @@ impl std::task::Wake for CountingWaker {
 
 /// Reader wake-up of the real `ReceiveStream` inside the real `DefaultStreamManager` (hook
 /// verif_hooks/recv.rs). One peer-initiated bidirectional stream whose receive window is W
-/// (connection window far larger); the peer sends in-order pieces, never beyond what the receiver
-/// currently admits (consumed + W).
-/// case = [W, ops..]; ops (code mod 4): 0 n: STREAM piece of n bytes (clipped to the window room; nothing
-/// is sent when no room is left) | 1 L H: read request with low watermark L, high watermark max(H,1) and a
-/// counting waker | 2 n: STREAM piece with FIN | 3: RESET_STREAM(final size = bytes sent so far).
-/// After FIN/reset no further frames are sent; the case ends when a read returns Finished or fails.
+/// (connection window far larger); the peer sends pieces in order or one segment ahead of a gap, never
+/// beyond what the receiver currently admits (consumed + W).
+/// case = [W, ops..]; ops (code mod 6): 0 n: STREAM piece of n bytes at the contiguous end (clipped to the window
+/// room, or to the gap when a later segment is held; fills the gap) | 1 L H: read request with low watermark L,
+/// high watermark max(H,1) and a counting waker | 2 n: the same piece with FIN (plain data while a gap is open)
+/// | 3: RESET_STREAM(final size = highest offset delivered) | 4 g n: STREAM piece at contiguous end + g (one
+/// such segment at a time) | 5 g n: the same with FIN.
+/// After a FIN only the gap filler is sent, after a reset nothing; the case ends when a read returns
+/// Finished or fails.
 /// output per op: [bytes consumed, will_wake, status, number of wake() calls so far, bytes available (reads only)]
 fn rxwake(input: &[V]) -> Vec<V> {
     use s2n_quic_transport::verif_hooks::recv::{self, FlowLimits, RxDriver};
@@ -327,24 +330,53 @@ fn rxwake(input: &[V]) -> Vec<V> {
     let counter = std::sync::Arc::new(CountingWaker(std::sync::atomic::AtomicU64::new(0)));
     let waker = std::task::Waker::from(counter.clone());
     let wakes = || counter.0.load(std::sync::atomic::Ordering::SeqCst) as V;
-    let mut sent: u64 = 0; // end offset of what the peer has sent
+    let mut sent: u64 = 0; // contiguous end of what the receiver has got
     let mut consumed: u64 = 0;
-    let mut ended = false; // FIN or RESET sent
+    let mut ended: u8 = 0; // 0 open, 1 FIN delivered (final size known), 2 reset
+    let mut ooo: Option<(u64, u64)> = None; // one segment delivered beyond a gap
     let mut out: Vec<V> = vec![];
+    let payload = |from: u64, n: u64| -> Vec<u8> { (0..n).map(|i| ((from + i) % 251) as u8).collect() };
     while !c.done() {
-        let op = c.next().rem_euclid(4);
-        let mut rec: [V; 3] = [0, 0, 0];
-        let mut stop = false;
+        let op = c.next().rem_euclid(6);
         match op {
             0 | 2 => {
-                let n = arg(&mut c, 1 << 20).min(consumed + w - sent);
-                let fin = op == 2;
-                if !ended && (n > 0 || fin) {
-                    let data: Vec<u8> = (0..n).map(|i| ((sent + i) % 251) as u8).collect();
-                    d.on_stream(sid, sent, &data, fin)
-                        .expect("in-window, in-order data is accepted");
+                let n = arg(&mut c, 1 << 20);
+                let n = match ooo {
+                    Some((a, _)) => n.min(a - sent),
+                    None => n.min(consumed + w - sent),
+                };
+                let fin = op == 2 && ooo.is_none();
+                let allowed = ended == 0 || (ended == 1 && ooo.is_some());
+                if allowed && (n > 0 || fin) {
+                    d.on_stream(sid, sent, &payload(sent, n), fin)
+                        .expect("in-window data is accepted");
                     sent += n;
-                    ended = fin;
+                    if let Some((a, b)) = ooo {
+                        if sent == a {
+                            sent = b;
+                            ooo = None;
+                        }
+                    }
+                    if fin {
+                        ended = 1;
+                    }
+                }
+            }
+            4 | 5 => {
+                let g = arg(&mut c, 1 << 20);
+                let n = arg(&mut c, 1 << 20);
+                let fin = op == 5;
+                let start = sent.saturating_add(g);
+                if ended == 0 && ooo.is_none() && g >= 1 && start <= consumed + w {
+                    let n = n.min(consumed + w - start);
+                    if n > 0 || fin {
+                        d.on_stream(sid, start, &payload(start, n), fin)
+                            .expect("in-window data beyond a gap is accepted");
+                        ooo = Some((start, start + n));
+                        if fin {
+                            ended = 1;
+                        }
+                    }
                 }
             }
             1 => {
@@ -352,25 +384,23 @@ fn rxwake(input: &[V]) -> Vec<V> {
                 let high = (arg(&mut c, 1 << 20) as usize).max(1);
                 let r = d.poll_rx(sid, low, high, &waker);
                 consumed += r.consumed as u64;
-                rec = [r.consumed as V, r.will_wake as V, r.status as V];
-                stop = r.status == 2 || r.status == 9;
-                out.extend(rec);
+                out.extend([r.consumed as V, r.will_wake as V, r.status as V]);
                 out.push(wakes());
                 out.push(r.available as V);
-                if stop {
+                if r.status == 2 || r.status == 9 {
                     break;
                 }
                 continue;
             }
             _ => {
-                if !ended {
-                    d.on_reset_stream(sid, 7, sent).expect("reset with the right final size");
-                    ended = true;
+                if ended == 0 {
+                    let top = ooo.map(|(_, b)| b).unwrap_or(sent);
+                    d.on_reset_stream(sid, 7, top).expect("reset with a valid final size");
+                    ended = 2;
                 }
             }
         }
-        let _ = stop;
-        out.extend(rec);
+        out.extend([0, 0, 0]);
         out.push(wakes());
         out.push(0);
     }
